@@ -73,6 +73,11 @@ CHECKS.update({
                note="Trusted: the Go race detector and the scheduler's coverage of interleavings; the shared-state model abstracts accumulate as a non-atomic read followed by a write. " + NOTE_COMMON),
 })
 
+CHECKS.update({
+    "C20": chk("Proof: gen_strings_wf (kernel evaluation, for every one of the 177 generated types, that the String method's extracted shape — case bounds, offsets, name constants, index arrays, map entries as written — yields for every covered value the trimmed name of a constant with that value, covers every constant and nothing else), uncovered_default (every other value of the type's range takes the default branch, including the unsigned wrap-around of the offset form), string_correct / gen_string_correct (for every value of the range String follows the specification). The tables are re-extracted from types.go / types_string.go / types_man.go on every run (the one syntactic extractor of this work; an unrecognised shape is a broken tie). Correspondence: every value of every 8- and 16-bit type and constants/neighbours/samples of wider types through the real String methods; the repository's stringer is re-run (hook) and compared byte for byte with types_string.go." + CORR,
+               "Lean 4 proof (decide +kernel per table + generic lifting theorem) over syntactically regenerated tables + exhaustive String() correspondence + stringer re-run", "6/C20"),
+})
+
 NOT_YET = {}
 
 def main():
